@@ -376,6 +376,8 @@ var c12templates = []string{
 	"d1,h/t2,r,h/x9",
 	"p72,c1,h/p75,h,x4",
 	"d1,p72,c2,h/r/p75,h",
+	"d1,x5/c2,h/d3,p1,h/r", // recover() in a deferred call of a function that is NOT panicking, while an outer panic is in flight: nil in Go
+	"d1,d2,x5/r/c3/d4,p1/r",
 }
 
 func c12random(r *rand.Rand) string {
@@ -568,7 +570,7 @@ func init() {
 	extractors["C12"] = extractC12
 	register(&Prop{
 		ID:   "C12",
-		Rule: "fault enumeration: 17 template programs + 40 (quick) / 800 (thorough) random programs over pad/hook/call/defer/recover/panic/try, as function call and as top-level code; for every k in 0..#hooks+1 the k-th hook call panics, in a fresh interpreter, followed by the battery; then 25 / 500 random histories of 2-5 evaluations in one interpreter. Non-trivial: every eval op; distinct by op text.",
+		Rule: "fault enumeration: 19 template programs + 40 (quick) / 800 (thorough) random programs over pad/hook/call/defer/recover/panic/try, as function call and as top-level code; for every k in 0..#hooks+1 the k-th hook call panics, in a fresh interpreter, followed by the battery; then 25 / 500 random histories of 2-5 evaluations in one interpreter. Non-trivial: every eval op; distinct by op text.",
 		Gen:  c12gen,
 		Exec: c12exec,
 		Prepare: c12prepare,
